@@ -289,18 +289,30 @@ def t1_compare(lines, tol_ulp=64.0, exact_ops=(), rng_seed=1, sens_variants=6, s
             suspects.append((l, mw, err, det, key, tol))
     if suspects:
         reqs = []
+        nvar = []
         for (l, mw, err, det, key, tol) in suspects:
+            variants = []
+            n_in = len(l.ins)
+            # every single coordinate by ±1, ±2 ulp (branch boundaries such as th2 < eps2 are crossed by
+            # one of them), plus random combinations
+            for i in range(n_in):
+                for k in (-2, -1, 1, 2):
+                    v = list(l.ins); v[i] = nudge(v[i], l.prec, k); variants.append(v)
             for v in range(sens_variants):
-                ins = [nudge(w, l.prec, rnd.choice((-1, 0, 1))) for w in l.ins]
+                variants.append([nudge(w, l.prec, rnd.choice((-2, -1, 0, 1, 2))) for w in l.ins])
+            nvar.append(len(variants))
+            for ins in variants:
                 reqs.append(' '.join([l.op, l.grp, l.prec] + ins))
         reps = run_driver(reqs)
+        pos = 0
         for si, (l, mw, err, det, key, tol) in enumerate(suspects):
+            mine = reps[pos:pos + nvar[si]]
+            pos += nvar[si]
             if det or l.op in exact_ops:
                 breaks.append({'line': l.raw, 'model': ' '.join(mw), 'err_ulp': err, 'why': det or 'exact-op'})
                 continue
             sens = 0.0
-            for v in range(sens_variants):
-                r = reps[si * sens_variants + v]
+            for r in mine:
                 if r.startswith('ERR'):
                     continue
                 e2, d2 = diff_ulp(mw, r.split(), l.prec, l.ins)
